@@ -32,7 +32,12 @@ Fixpoint list_eqb {A} (e : A -> A -> bool) (a b : list A) : bool :=
   | _, _ => false
   end.
 Definition strs_eqb := list_eqb String.eqb.
-Definition inst_eqb (a b : mid * list string) : bool := (fst a =? fst b) && strs_eqb (snd a) (snd b).
+(* connection names of an instance are compared as a multiset: the ORDER of `inst.conns` is no observable of this property
+   (it is what fix 330cc52 of another property made deterministic; the pinned tree appends flattened connections) *)
+Definition scount (x : string) (l : list string) : nat := List.length (filter (String.eqb x) l).
+Definition strs_permb (a b : list string) : bool :=
+  (List.length a =? List.length b) && forallb (fun x => scount x a =? scount x b) a.
+Definition inst_eqb (a b : mid * list string) : bool := (fst a =? fst b) && strs_permb (snd a) (snd b).
 (* what the implementation showed right AFTER a flattening body: namespace, ports, connection names of the instances *)
 Definition post_eqb (c ob : cmod) : bool :=
   strs_eqb (c_ns c) (c_ns ob) && strs_eqb (c_ports c) (c_ports ob) && list_eqb inst_eqb (c_insts c) (c_insts ob).
